@@ -257,6 +257,18 @@ CLAIMED.update({
     ),
 })
 
+CLAIMED.update({
+    "C21": dict(
+        level="other",
+        note="Trusted: CPython ast; the project's documentation (docs/service_classes/*.rst tables and the handler docstrings in "
+        "_handlers.py) as the oracle for 'documented' - it is parsed from /repo on every run, so a change of code and docs "
+        "together is, by the property's own wording, still documented. Not decided: that the data set reaches the requestor "
+        "unchanged (C25/C18 hold the structural part), validity of status values the handler chooses.",
+        technique="decision-list extraction from if/elif chains + structural cause classification of failure-code sites compared with parsed documentation tables + def-use of the response data set (ast)",
+        ref="4/C21",
+    ),
+})
+
 PENDING = "designed in DESIGN.md section 4, checker not built yet - not claimed through a stub"
 
 NOT_APPLICABLE = {
